@@ -48,6 +48,13 @@ static zckRangeItem *range_insert_new(zckCtx *zck, zckRangeItem *prev,
     }
     new->start = start;
     new->end = end;
+    /* Only link the new item into the list once nothing can fail any more */
+    if(add_index)
+        if(!index_new_chunk(zck, &(info->index), idx->digest, idx->digest_size,
+                            idx->digest_uncompressed, end-start+1, end-start+1, idx, false)) {
+            free(new);
+            return NULL;
+        }
     if(prev) {
         new->prev = prev;
         prev->next = new;
@@ -56,12 +63,6 @@ static zckRangeItem *range_insert_new(zckCtx *zck, zckRangeItem *prev,
         new->next = next;
         next->prev = new;
     }
-    if(add_index)
-        if(!index_new_chunk(zck, &(info->index), idx->digest, idx->digest_size,
-                            idx->digest_uncompressed, end-start+1, end-start+1, idx, false)) {
-            free(new);
-            return NULL;
-        }
     return new;
 }
 
